@@ -13,6 +13,7 @@ pub mod faults;
 pub mod flacfile;
 pub mod io;
 pub mod meta;
+pub mod metah;
 pub mod par;
 pub mod readers;
 pub mod streamsync;
